@@ -1,22 +1,55 @@
 //! `nvh` — the verification harness: generators, in-process runners of the real crate, oracles.
 //!
-//! `nvh <family> <action> [options]`; every family documents its own line protocol (DESIGN.md
-//! Appendix A). Actions: `gen` (write request lines), `run` (answer request lines from stdin by
+//! `nvh <family> <action> [options]`; every family documents its own line protocol at the top of
+//! its module. Actions: `gen` (write request lines), `run` (answer request lines from stdin by
 //! calling the real code), plus family-specific ones.
 #![feature(allocator_api)]
+#![allow(dead_code)]
 
+mod ast;
+mod astio;
+mod bump;
+mod capture;
+mod cli;
+mod depth;
+mod lex;
+mod limits;
+mod mem;
+mod parse;
+mod pipeline;
+mod plan;
 mod pool;
+mod proc;
+mod readline;
+mod resolve;
+mod run;
+mod strs;
 mod tables;
-#[allow(dead_code)]
 mod util;
 
 fn main() {
     let args: Vec<String> = std::env::args().skip(1).collect();
+    let rest = if args.is_empty() { &args[..] } else { &args[1..] };
     let code = match args.first().map(String::as_str) {
-        Some("pool") => pool::main(&args[1..]),
-        Some("dump-tables") => tables::main(&args[1..]),
+        Some("pool") => pool::main(rest),
+        Some("ast") => ast::main(rest),
+        Some("dump-tables") => tables::main(rest),
+        Some("bump") => bump::main(rest),
+        Some("strs") => strs::main(rest),
+        Some("readline") => readline::main(rest),
+        Some("proc") => proc::main(rest),
+        Some("limits") => limits::main(rest),
+        Some("capture") => capture::main(rest),
+        Some("cli") => cli::main(rest),
+        Some("lex") => lex::main(rest),
+        Some("parse") => parse::main(rest),
+        Some("resolve") => resolve::main(rest),
+        Some("run") => run::main(rest),
+        Some("plan") => plan::main(rest),
+        Some("mem") => mem::main(rest),
+        Some("depth") => depth::main(rest),
         _ => {
-            eprintln!("usage: nvh <pool|dump-tables> ...");
+            eprintln!("usage: nvh <family> <action> ...");
             2
         }
     };
